@@ -338,3 +338,8 @@ def describe(plan):
                 "script": [{k: (v if k not in ("stream", "chunks", "gaps") else len(v)) for k, v in e.items()} for e in plan["script"]]}
     return {"format": plan["format"], "clock": plan.get("clock"), "listeners": plan["listeners"],
             "history": [[e.get("at")] + e["f"][:4] + [e["k"]] + ([e.get("mfg")] if e["k"] == "claim" else []) for e in plan["events"][:30]]}
+
+
+def seam_check():
+    from .common import seam_net, seam_clock, seam_fs
+    return seam_clock() or seam_net()
